@@ -30,3 +30,10 @@ mod polynomial;
 mod prng;
 pub mod topology;
 pub mod vdaf;
+
+// Verification hook: harness sources live outside this repository and are compiled into the crate
+// so that they can reach crate-private items. Neither module exists in a normal build.
+#[cfg(all(kani, feature = "prio_verif"))]
+mod verif_harness {
+    include!(env!("PRIO_VERIF_HARNESS"));
+}
